@@ -51,6 +51,11 @@ def handle (j : Json) : Json :=
                 ("events", jl (r.1.map (fun e => match e with
                     | .lcmd c => Json.mkObj [("l", jn c)]
                     | .rank rk evs => Json.mkObj [("rank", jn rk), ("evs", jl (evs.map evJson))])))]
+  else if op == "envorder" then
+    -- kinds of the lines of the task environment section, in order
+    let named := if jbool j "named" then some (([] : List Nat), ([] : List (Nat × Nat))) else none
+    let acts := taskEnvActs named ((List.range (jnat j "nenv")).map (fun i => (i, 0)))
+    jl (acts.map (fun a => match a with | .source _ _ => Json.str "named" | .export _ _ => Json.str "export"))
   else Json.str "bad-op"
 
 end Driver.Shell
